@@ -2,44 +2,7 @@ use vh::{engine, merge, props, selftest};
 
 use vh::engine::{Ctx, Tier};
 
-type Runner = fn(&mut Ctx);
-
-fn registry() -> Vec<(&'static str, Runner, &'static str)> {
-    vec![
-        ("C01", props::c01::run as Runner, props::c01::RULE),
-        ("C02", props::c02::run as Runner, props::c02::RULE),
-        ("C03", props::c03::run as Runner, props::c03::RULE),
-        ("C04", props::c04::run as Runner, props::c04::RULE),
-        ("C05", props::c05::run as Runner, props::c05::RULE),
-        ("C06", props::c06::run as Runner, props::c06::RULE),
-        ("C07", props::c07::run as Runner, props::c07::RULE),
-        ("C08", props::c08::run as Runner, props::c08::RULE),
-        ("C09", props::c09::run as Runner, props::c09::RULE),
-        ("C10", props::c10::run as Runner, props::c10::RULE),
-        ("C11", props::c11::run as Runner, props::c11::RULE),
-        ("C12", props::c12::run as Runner, props::c12::RULE),
-        ("C13", props::c13::run as Runner, props::c13::RULE),
-        ("C14", props::c14::run as Runner, props::c14::RULE),
-        ("C15", props::c15::run as Runner, props::c15::RULE),
-        ("C16", props::c16::run as Runner, props::c16::RULE),
-        ("C17", props::c17::run as Runner, props::c17::RULE),
-        ("C18", props::c18::run as Runner, props::c18::RULE),
-        ("C19", props::c19::run as Runner, props::c19::RULE),
-        ("C20", props::c20::run as Runner, props::c20::RULE),
-        ("C21", props::c21::run as Runner, props::c21::RULE),
-        ("C22", props::c22::run as Runner, props::c22::RULE),
-        ("C23", props::c23::run as Runner, props::c23::RULE),
-        ("C24", props::c24::run as Runner, props::c24::RULE),
-        ("C25", props::c25::run as Runner, props::c25::RULE),
-        ("C26", props::c26::run as Runner, props::c26::RULE),
-        ("C27", props::c27::run as Runner, props::c27::RULE),
-        ("C28", props::c28::run as Runner, props::c28::RULE),
-        ("C29", props::c29::run as Runner, props::c29::RULE),
-        ("C30", props::c30::run as Runner, props::c30::RULE),
-        ("C31", props::c31::run as Runner, props::c31::RULE),
-        ("C32", props::c32::run as Runner, props::c32::RULE),
-    ]
-}
+use vh::props::registry;
 
 fn usage() -> ! {
     eprintln!("usage: vh run <id> <quick|thorough> | vh merge <id> <tier> <part.json>... | vh list");
